@@ -18,9 +18,12 @@ Leaves == IF ReducedLeaves
           THEN {l \in AllLeaves : (l.k \in IntKinds => (l.k \in {"i8", "i64", "i128", "u64", "u128"} /\ l.s # "zero"))
                                   /\ (l.k \in FloatKinds => l.s \in {"nan", "1.5"}) /\ (l.k = "str" => l.s \in {"NaN", "b64:b3"})}
           ELSE AllLeaves
-KeyLeaves == {l \in Leaves : l.k \notin {"unit", "bytes"}}
-Small == {V("i32", "zero", <<>>), V("str", "NaN", <<>>), V("f64", "nan", <<>>)}
 Variants == {"A", "B"}
+PlainKeys == {l \in Leaves : l.k \notin {"unit", "bytes"}}
+(* key types of the Conjure data model that are not leaves: an alias of a key type (newtype struct) and an enum (unit variant) *)
+KeyLeaves == PlainKeys \cup {V("newtype_struct", "", <<k>>) : k \in {l \in PlainKeys : l.s \in {"max", "nan", "true", "NaN", "uuid-text", "c"}}}
+                       \cup {V("unit_variant", n, <<>>) : n \in Variants}
+Small == {V("i32", "zero", <<>>), V("str", "NaN", <<>>), V("f64", "nan", <<>>)}
 
 (* Option<()>, Option<Option<T>> ... cannot be told apart from None in any self-describing encoding (the value's *)
 (* own encoding is null): excluded, as Conjure forbids them                                                      *)
